@@ -174,7 +174,7 @@ AbsFrame(st, f, rj) ==
         die(codes) == [a |-> [st EXCEPT !.dead = TRUE, !.codes = codes], out |-> FailOut]
     IN
     IF st.dead THEN [a |-> st, out |-> NoneOut]
-    ELSE IF hdrBad THEN die({1002} \cup (IF atcap THEN {1009} ELSE {}))
+    ELSE IF hdrBad THEN die({1002} \cup (IF atcap \/ f.lk = "top" THEN {1009} ELSE {}))
     ELSE IF f.lk = "top" THEN die({1002, 1009})
     ELSE IF over \/ (atcap /\ rj) THEN die({1009})
     ELSE IF f.op \in {9, 10} THEN [a |-> st, out |-> MsgOut(f.op, f.pl, 0)]
